@@ -289,6 +289,9 @@ def rendered_numbers(ctx: Ctx, rep: Report, rid: str = "R10.6") -> None:
                 # a renderer that filters empty words while it collects them leaves the prefix out exactly when it is empty
                 if not ok and any((not tr) and "_sequence_s()" in src(t) for t, tr in pi.atoms):
                     ok = True
+            # the words are collected by a loop over a literal whose first element is the prefix
+            if not ok and any(nd.kind == "for" and isinstance(nd.ast.iter, (ast.Tuple, ast.List)) and nd.ast.iter.elts and "_sequence_s()" in src(nd.ast.iter.elts[0]) for nd, _lab in pi.nodes):
+                ok = True
             held = "; ".join(f"{snippet(t, 30)}{'' if tr else ' (false)'}" for t, tr in pi.atoms)[:120]
             if ok:
                 rep.ok(f"{q} [{held}]", "the rendered line starts with the sequence prefix", nontrivial=False, where=where(g))
